@@ -125,6 +125,27 @@ func setXidReflect(m util.Message, xid uint32) {
 	}
 }
 
+// xidOf reads Header.Xid of a library message (ok=false when there is none).
+func xidOf(m util.Message) (uint32, bool) {
+	v := reflect.ValueOf(m)
+	if v.Kind() != reflect.Ptr || v.IsNil() {
+		return 0, false
+	}
+	e := v.Elem()
+	if e.Kind() != reflect.Struct {
+		return 0, false
+	}
+	if f := e.FieldByName("Xid"); f.IsValid() && f.Kind() == reflect.Uint32 {
+		return uint32(f.Uint()), true
+	}
+	if h := e.FieldByName("Header"); h.IsValid() && h.Kind() == reflect.Struct {
+		if f := h.FieldByName("Xid"); f.IsValid() && f.Kind() == reflect.Uint32 {
+			return uint32(f.Uint()), true
+		}
+	}
+	return 0, false
+}
+
 // checkRapid is rapid.Check with one addition: a panic that escapes the property
 // function from inside the library - a constructor, an adder, an encoder called
 // by a generator on the values it is documented to accept - is a violation of the
